@@ -49,16 +49,27 @@ class Prover:
             if isinstance(c, tuple) and c and c[0] == "call" and re.search(r"::enumerate$", c[1]) and c[2]:
                 inner = c[2][0]
                 steps = 0
+                zipped = None
+                ADAPT = r"::(zip|iter|into_iter|iter_mut|by_ref|copied|cloned|take|skip)(::<.*>)?$"
                 while isinstance(inner, tuple) and inner and steps < 6:
                     steps += 1
                     if inner[0] == "iter":
                         inner = inner[1]
-                    elif inner[0] == "call" and re.search(r"::(zip|iter|into_iter|iter_mut|by_ref|copied|cloned)$", inner[1]) and inner[2]:
+                    elif inner[0] == "call" and re.search(ADAPT, inner[1]) and inner[2]:
+                        if re.search(r"::zip(::<.*>)?$", inner[1]) and len(inner[2]) == 2 and zipped is None:
+                            zipped = inner[2][1]
                         inner = inner[2][0]
                     else:
                         break
+                # the items: (index, x) for a plain iterator, (index, (x, y)) for a zip; x is an element of the collection
                 if isinstance(inner, tuple) and inner and inner[0] in ("p", "l", "call", "proj"):
-                    self.lts.append((E.proj_of(f[1], (".0",)), ("len", inner)))
+                    item = E.proj_of(f[1], (".1", ".0")) if zipped is not None else E.proj_of(f[1], (".1",))
+                    self.elemof.setdefault(E.canon(item), inner)
+                if isinstance(inner, tuple) and inner and inner[0] in ("p", "l", "call", "proj"):
+                    ix = E.proj_of(f[1], (".0",))
+                    self.lts.append((ix, ("len", inner)))
+                    # the index behaves like the variable of `for i in 0..inner.len()`
+                    self.ranges.setdefault(E.canon(ix), (E.C(0), ("len", inner)))
         for f in assume:
             if f[0] == "range":
                 self.ranges[E.canon(f[1])] = (f[2], f[3])
@@ -70,6 +81,16 @@ class Prover:
     def add_cond(self, e, truth):
         e = E.strip_casts(e)
         if not isinstance(e, tuple):
+            return
+        if e and e[0] == "case" and truth in (0, 1) and all(E.is_c(E.strip_casts(v)) for _l, v in e[2]):
+            # `matches!(x, a | b | c)` used as a condition: x is one of the labels whose arm has this truth value
+            labs = []
+            for lab, v in e[2]:
+                if E.strip_casts(v)[1] == truth:
+                    labs += list(lab) if isinstance(lab, tuple) else [lab]
+            if labs and all(isinstance(x, int) for x in labs):
+                self.les.append((E.C(min(labs)), e[1]))
+                self.les.append((e[1], E.C(max(labs))))
             return
         if e[0] == "un" and e[1] == "Not":
             self.add_cond(e[2], 1 - truth if truth in (0, 1) else truth)
@@ -220,6 +241,18 @@ class Prover:
                 m = re.search(r"be_u(\d+)", str(ap[2][1]))
                 if m:
                     take((1 << int(m.group(1))) - 1)
+        if isinstance(e, tuple) and E.canon(e) in self.elemof and e[0] != "index":
+            # an element of a collection (reached through an iterator): what a loop established for every element holds
+            mycoll = E.canon(E.strip_casts(self.elemof[E.canon(e)]))
+            for (_k, desc, cnd, truth) in self.foralls:
+                coll = _base_collection(desc)
+                if coll is None or E.canon(E.strip_casts(coll)) != mycoll:
+                    continue
+                for holder in _elem_forms(desc, desc[1]):
+                    inst = _replace(cnd, holder, e)
+                    if inst != cnd and depth < 3:
+                        sub = Prover(self.facts, [("cond", inst, truth)])
+                        take(sub.upper(e, depth + 1))
         if isinstance(e, tuple) and e[0] == "index":
             for (_k, desc, cnd, truth) in self.foralls:
                 coll = _base_collection(desc)
@@ -337,6 +370,8 @@ class Prover:
         ua, lb = self.upper(a), self.lower(b)
         if ua is not None and lb is not None and ua <= lb:
             return "upper bound %d <= lower bound %d" % (ua, lb)
+        if self.const(a) == 1 and (self.lower(b) or 0) >= 0 and self.nonzero(b):
+            return "1 <= a non-zero unsigned value"
         cb = self.const(b)
         if ua is not None and cb is not None and ua <= cb:
             return "upper bound %d <= %d" % (ua, cb)
